@@ -63,6 +63,7 @@ func main() {
 	famCheat(r)
 	famCerts(r)
 	famReal(r)
+	famSanitise(r)
 	straceC06(r)
 }
 
